@@ -14,6 +14,9 @@ namespace Primitiv.Lock
 /-- 2^64, the modulus of `std::uint64_t next_id_`. -/
 abbrev W64 : Nat := 18446744073709551616
 
+/-- `++x` on a `std::uint64_t`. -/
+def inc64 (n : Nat) : Nat := if n + 1 < W64 then n + 1 else 0
+
 def updO {α} (f : Nat → α) (k : Nat) (v : α) : Nat → α := fun x => if x = k then v else f x
 
 namespace Ident
@@ -44,7 +47,7 @@ def exec (s : St) : Cmd → St × String
       let objs := match s.objs id with
         | some _ => s.objs
         | none => updO s.objs id (some a)
-      (⟨(s.next + 1) % W64, objs, updO s.live a (some id), id :: s.issued⟩, s!"ok {id}")
+      (⟨inc64 s.next, objs, updO s.live a (some id), id :: s.issued⟩, s!"ok {id}")
   | .del a =>
     match s.live a with
     | none => (s, "bad-op")
